@@ -688,6 +688,8 @@ func laneE2E(c *ev.Ctx) {
 	}
 	wg.Wait()
 	e2eBatches(x, env.Client(0), "e2e/batch", "bucket", c.Pick(30, 300))
+	bypassBatchLane(c, false)
+	bypassBatchLane(c, true)
 	if _, cr := env.Dead(); cr != nil {
 		x.dead.Do(func() {
 			c.Violation("e2e:gateway-died", "e2e", map[string]any{"crash": cr.Message, "frame": cr.TopFrame})
